@@ -141,8 +141,18 @@ def _analyze_expression(
     expression = ufl.algorithms.apply_derivatives.apply_derivatives(expression)
 
     # Remove complex nodes if scalar type is real valued
-    if not np.issubdtype(scalar_type, np.complexfloating):
+    complex_mode = np.issubdtype(scalar_type, np.complexfloating)
+    if not complex_mode:
         expression = ufl.algorithms.remove_complex_nodes.remove_complex_nodes(expression)
+
+    # An expression with an Argument is tabulated as a tensor over the dofs of
+    # the Argument, so it has to be linear in it (as the integrands of forms are):
+    # u + f or u * u would silently lose a term
+    arguments = sorted(
+        ufl.algorithms.extract_arguments(expression), key=lambda a: (a.number(), a.part())
+    )
+    if arguments:
+        ufl.algorithms.check_arities.check_integrand_arity(expression, arguments, complex_mode)
 
     return expression
 
